@@ -88,7 +88,7 @@ int list_of(uint32_t mask, int n, int *out);   /* indexes set in mask, ascending
 void mask_str(uint32_t mask, int n, char *buf, size_t len); /* "[0,3,5]" */
 
 /* ---- per-configuration context: instance + a set of encoded stripes ---- */
-#define MAXSTR 16
+#define MAXSTR 40
 typedef struct {
     cfg_t c; int desc; code_t cd; char ck[96];
     int nstr; stripe_t st[MAXSTR]; uint8_t *data[MAXSTR]; int kind[MAXSTR];
@@ -98,5 +98,8 @@ extern const char *LEC_PROP;     /* property id used for violations raised in se
 int  ctx_open(ctx_t *x, const cfg_t *c, const uint64_t *lens, const int *kinds, int nlen);
 void ctx_close(ctx_t *x);
 int  std_lengths(const cfg_t *c, uint64_t *lens, int *kinds, int max, int few);
+/* data lengths whose per-fragment payload sizes cover every residue modulo 32 the word size allows, plus the
+ * neighbourhoods of 64, 128 and 1024 bytes (region loops of 4/8/16-byte words with byte tails) */
+int  payload_sweep_lengths(const cfg_t *c, uint64_t *lens, int *kinds, int max);
 
 #endif
